@@ -1100,32 +1100,56 @@ Qed.
 Lemma scale_unit c : scale (1, 1) c = c.
 Proof. unfold scale. cbn [fst snd]. rewrite Z.mul_1_r. apply Z.div_1_r. Qed.
 
-Lemma cutoff_life_unit_acc : forall ms c acc, (forall m, In m ms -> m = (1, 1)) ->
-  snd (fold_left (fun st m => let c := scale m (fst st) in (c, snd st ++ [c])) ms (c, acc)) = acc ++ repeat c (length ms).
+(* a chain of copies: every copy starts from what the first ruleset was given *)
+Lemma life_from_copies : forall ms g c, life_from g c (map (pair true) ms) = map (fun m => scale m g) ms.
+Proof. induction ms as [|m ms IH]; intros g c; cbn [map life_from]; [reflexivity|]. rewrite IH. reflexivity. Qed.
+
+(* with ANY multipliers: a ruleset built over the parsed rule and every copy of it (of a copy of it ...)
+   sees the text's value times its own multiplier *)
+Lemma cutoff_life_copies kb m ms :
+  cutoff_life kb (1, 1) ((false, m) :: map (pair true) ms)
+  = kb * 1000 :: scale m (kb * 1000) :: map (fun m' => scale m' (kb * 1000)) ms.
 Proof.
-  induction ms as [|m ms IH]; intros c acc H; cbn [fold_left length repeat].
-  - rewrite app_nil_r. reflexivity.
-  - rewrite (H m (or_introl eq_refl)), scale_unit. cbn [fst snd].
-    rewrite IH by (intros m' Hm'; apply H; right; exact Hm').
-    rewrite <- app_assoc. reflexivity.
+  unfold cutoff_life, parsed_cutoff. rewrite scale_unit. cbn [life_from]. rewrite life_from_copies. reflexivity.
 Qed.
 
-(* with unit multipliers everywhere, the attribute is the text's value after any number of Ruleset
-   constructions over the same rule object *)
-Lemma cutoff_life_unit kb ms : (forall m, In m ms -> m = (1, 1)) ->
-  cutoff_life kb (1, 1) ms = repeat (kb * 1000) (S (length ms)).
+(* Ruleset.from_files(multipliers = m): parsed unscaled, scaled once by the constructor *)
+Lemma from_files_scales_once kb m : cutoff_life kb (1, 1) [(false, m)] = [kb * 1000; scale m (kb * 1000)].
+Proof. exact (cutoff_life_copies kb m []). Qed.
+
+Fixpoint life_state (given current : Z) (steps : list (bool * (Z * Z))) : Z * Z :=
+  match steps with
+  | [] => (given, current)
+  | (copy, m) :: rest => let g := if copy then given else current in life_state g (scale m g) rest
+  end.
+
+Lemma life_from_app : forall a b g c,
+  life_from g c (a ++ b) = life_from g c a ++ life_from (fst (life_state g c a)) (snd (life_state g c a)) b.
 Proof.
-  intro H. unfold cutoff_life, parsed_cutoff. rewrite scale_unit.
-  exact (cutoff_life_unit_acc ms (kb * 1000) [kb * 1000] H).
+  induction a as [|[k m] a IH]; intros b g c; cbn [app life_from life_state fst snd]; [reflexivity|].
+  rewrite IH. reflexivity.
 Qed.
 
-(* Ruleset.from_files(multipliers = 3/2) on `CUTOFF 10`: parsed 15000, then scaled again: 22500 *)
-Lemma from_files_scales_twice : exists kb m, 0 < fst m /\ 0 < snd m /\
-  last (cutoff_life kb m [m]) 0 <> scale m (kb * 1000).
-Proof. exists 10, (3, 2). repeat split; try reflexivity. vm_compute. discriminate. Qed.
+Lemma life_state_last : forall a g c d, last (c :: life_from g c a) d = snd (life_state g c a).
+Proof.
+  induction a as [|[k m] a IH]; intros g c d; cbn [life_from life_state]; [reflexivity|].
+  rewrite <- (IH _ _ d). reflexivity.
+Qed.
 
-(* a Ruleset over rule objects that already sit in another Ruleset (or a copy_with_replacements of
-   it) re-scales them: the first Ruleset's rules change under its feet *)
-Lemma ruleset_copy_rescales : exists kb m, 0 < fst m /\ 0 < snd m /\
-  cutoff_life kb (1, 1) [m; m] <> [kb * 1000; scale m (kb * 1000); scale m (kb * 1000)].
-Proof. exists 10, (3, 2). repeat split; try reflexivity. vm_compute. discriminate. Qed.
+(* a Ruleset over the rule objects another holder detects with: the value it is given times its own
+   multiplier - after any life, and nobody else's value is involved *)
+Lemma cutoff_life_constructor kb m0 pre m :
+  cutoff_life kb m0 (pre ++ [(false, m)]) = cutoff_life kb m0 pre ++ [scale m (last (cutoff_life kb m0 pre) 0)].
+Proof.
+  unfold cutoff_life. rewrite life_from_app, life_state_last. cbn [life_from app]. reflexivity.
+Qed.
+
+(* copying a ruleset with its own multiplier (the plain copy_with_replacements) keeps its distances -
+   after any life, for any multiplier *)
+Lemma ruleset_copy_keeps kb m0 pre k m :
+  cutoff_life kb m0 (pre ++ [(k, m); (true, m)])
+  = cutoff_life kb m0 (pre ++ [(k, m)]) ++ [last (cutoff_life kb m0 (pre ++ [(k, m)])) 0].
+Proof.
+  unfold cutoff_life. rewrite !life_from_app. cbn [life_from].
+  rewrite !app_comm_cons, last_last, <- app_assoc. reflexivity.
+Qed.
